@@ -64,6 +64,8 @@ func init() {
 			c.floor("MIRRORSWAP", 0)
 		},
 		SelfTest: []Mutation{
+			{Name: "conjugated meshing maps back with the inverses in forward order", File: "model3d/mc.go",
+				Old: "\treturn mesh.Transform(joined.Inverse())", New: "\tinverse := make(JoinedTransform, len(xforms))\n\tfor i, x := range xforms {\n\t\tinverse[i] = x.Inverse()\n\t}\n\treturn mesh.Transform(inverse)", Rule: "INVORDER", Expect: "MarchingCubesConj"},
 			{Name: "pinch reports the box it was given", File: "toolbox3d/squeeze.go",
 				Old: "func (a *AxisPinch) ApplyBounds(min, max model3d.Coord3D) (newMin, newMax model3d.Coord3D) {\n\treturn a.Apply(min), a.Apply(max)", New: "func (a *AxisPinch) ApplyBounds(min, max model3d.Coord3D) (newMin, newMax model3d.Coord3D) {\n\treturn min, max", Rule: "IDBOUNDS", Expect: "AxisPinch"},
 			{Name: "joined transform inverts its members in place", File: "model3d/transform.go",
@@ -114,6 +116,8 @@ func init() {
 			c.floor("MEMO", 150)
 		},
 		SelfTest: []Mutation{
+			{Name: "mesh distance search hands back the squared distance", File: "model3d/sdf.go",
+				Old: "\t\t\t*curDist = dist\n", New: "\t\t\t*curDist = dist * dist\n", Rule: "UNIT", Expect: "SDF"},
 			{Name: "torus memoises its basis in the receiver", File: "model3d/shapes.go",
 				Old: "func (t *Torus) SDF(c Coord3D) float64 {\n", New: "func (t *Torus) SDF(c Coord3D) float64 {\n\tt.once.Do(func() { t.cachedAxis = t.Axis.Normalize() })\n",
 				More: [][2]string{{"type Torus struct {\n", "type Torus struct {\n\tonce       sync.Once\n\tcachedAxis Coord3D\n"}, {"import (\n", "import (\n\t\"sync\"\n"}}, Rule: "MEMO", Expect: "Torus"},
